@@ -1017,12 +1017,12 @@ func vfKindFixup(g *vfG, kind string, t reflect.Type, m map[string]interface{}) 
 			}
 		}
 		if sm, ok := m["signature"].(map[string]interface{}); ok {
-			if ak, _ := sm["accessKeys"].(map[interface{}]interface{}); len(ak) == 0 && g.chance("signature.accessKeys", "fix", 92) {
+			if ak, _ := sm["accessKeys"].(map[interface{}]interface{}); len(ak) == 0 && g.chance("signature.accessKeys", "fix", 88) {
 				sm["accessKeys"] = map[interface{}]interface{}{"ak1": "secret1"}
 			}
 		}
 		if om, ok := m["oauth2"].(map[string]interface{}); ok {
-			if om["jwt"] == nil && om["tokenIntrospect"] == nil && g.chance("oauth2", "fix", 92) {
+			if om["jwt"] == nil && om["tokenIntrospect"] == nil && g.chance("oauth2", "fix", 88) {
 				if g.chance("oauth2", "mode", 50) {
 					om["jwt"] = map[string]interface{}{"algorithm": "HS256", "secret": "6d79736563726574"}
 				} else {
